@@ -6,6 +6,7 @@ From JB Require Import Constants Bytes Utf8 Num Value Codec Decimal JsonText Ord
   Render Serde Path PathSem PathParse Dispatch Walk CompareWalk ComparableWalk.
 From JB Require Import RenderWalk.
 From JB Require Import SelWalk.
+From JB Require Import EditWalk2.
 Extraction Language OCaml.
 Extraction "model.ml"
   to_vec write_to_vec enc parse_jsonb is_jsonb assoc_insert
@@ -25,4 +26,5 @@ Extraction "model.ml"
   select_w sel_exists_w sel_predicate_match_w get_by_path_w get_by_path_first_w get_by_path_array_w path_exists_w path_match_w
   to_serde_json_m to_serde_json_object_m value_to_serde serde_to_value
   parse_lazy_value lazy_to_vec lazy_array_length lazy_to_value
+  object_insert_w object_delete_w object_pick_w strip_nulls_w delete_by_keypath_w
   parse_json_path parse_key_paths show_json_path show_key_paths float_placeholder.
